@@ -1099,8 +1099,39 @@ def keyed_acts(an, x):
     return out
 
 
+def suppressed(imports, w):
+    """Exception class expressions E1.. of `with contextlib.suppress(E1, ...):` (one with-item, no `as`, the name resolved through the
+    module's imports, plain names / dotted names as arguments), else None.  Such a statement IS `try: body  except (E1, ...): pass`."""
+    if not isinstance(w, ast.With) or len(w.items) != 1 or w.items[0].optional_vars is not None:
+        return None
+    e = w.items[0].context_expr
+    if not (isinstance(e, ast.Call) and not e.keywords and e.args and all(isinstance(a, (ast.Name, ast.Attribute)) and dotted(a) for a in e.args)):
+        return None
+    d = dotted(e.func) or ""
+    head, _, rest = d.partition(".")
+    if head not in imports:
+        return None
+    if (imports[head] + ("." + rest if rest else "")) != "contextlib.suppress":
+        return None
+    return list(e.args)
+
+
+def suppress_as_try(imports, w):
+    """The `try` statement that `with contextlib.suppress(...)` stands for (same body nodes), or None."""
+    excs = suppressed(imports, w)
+    if excs is None:
+        return None
+    typ = excs[0] if len(excs) == 1 else ast.Tuple(elts=list(excs), ctx=ast.Load())
+    h = ast.ExceptHandler(type=typ, name=None, body=[ast.Pass()])
+    t = ast.Try(body=w.body, handlers=[h], orelse=[], finalbody=[])
+    ast.copy_location(t, w)
+    for x in (h, h.body[0], typ):
+        ast.copy_location(x, w)
+    return t
+
+
 def tolerant_or_locked(fn, node):
-    """Inside `try` with a handler for KeyError (or wider), or inside `with <...lock...>`."""
+    """Inside `try` with a handler for KeyError (or wider) -- also spelt `with contextlib.suppress(KeyError)` --, or inside `with <...lock...>`."""
     pm = parents_of(fn)
     n, child = pm.get(id(node)), node
     while n is not None and n is not fn.node:
@@ -1111,6 +1142,10 @@ def tolerant_or_locked(fn, node):
                     return True
         if isinstance(n, (ast.With, ast.AsyncWith)) and any(is_lock_expr(fn, it.context_expr) for it in n.items):
             return True
+        if isinstance(n, ast.With) and _AN[0] is not None and any(child is s for s in n.body):
+            excs = suppressed(_AN[0].imports.get(fn.rel, {}), n)
+            if excs and {dotted(t) for t in excs} & {"KeyError", "LookupError", "Exception", "BaseException"}:
+                return True
         child, n = n, pm.get(id(n))
     return False
 
